@@ -404,8 +404,8 @@ func FuzzC12(f *testing.F) {
 // ---- C12 id reuse: a peer opens, resets and re-opens the same stream id while the old handler is still unwinding ----
 
 type C12Reuse struct {
-	Cycles            int  `json:"cycles"`     // open/reset cycles before the final open (1..3)
-	Bodies            int  `json:"bodies"`     // bodies per life (0..3)
+	Cycles            int  `json:"cycles"`              // open/reset cycles before the final open (1..3)
+	Bodies            int  `json:"bodies"`              // bodies per life (0..3)
 	ReleaseBeforeNext bool `json:"release_before_next"` // old handler finishes unwinding before (true) or after (false) the id is opened again
 	Ser               bool `json:"ser"`
 }
